@@ -1840,7 +1840,7 @@ struct Totals {
     tags: BTreeMap<String, u64>,
 }
 
-fn write_outputs(outdir: &str, cases: &[Case], results: Vec<CaseResult>, do_shrink: bool, want_trace: bool) {
+fn write_outputs(outdir: &str, cases: &[Case], results: Vec<CaseResult>, do_shrink: bool, want_trace: bool, trace_max: usize) {
     let mut t = Totals {
         cases: 0,
         failures: 0,
@@ -1899,7 +1899,7 @@ fn write_outputs(outdir: &str, cases: &[Case], results: Vec<CaseResult>, do_shri
                 writeln!(mon_txt, "{}\t{}\t{}\t{}\t{}\t{}", sf.class, ci, sc.text(), sf.detail.replace(['\n', '\t'], " "), runs, tag).unwrap();
             }
         }
-        if want_trace && (fault || r.fail.is_none()) {
+        if want_trace && ci < trace_max && (fault || r.fail.is_none()) {
             for (k, l) in trace_text(&r.trace, &r.verdicts).into_iter().enumerate() {
                 t.traced_msgs += r.trace[k].len() as u64;
                 writeln!(trace_txt, "{ci} {l}").unwrap();
@@ -1984,7 +1984,13 @@ fn main() {
                     run_case_caught(c)
                 })
                 .collect();
-            write_outputs(outdir, &cases, results, !flag("--no-shrink"), flag("--trace"));
+            let trace_max = args
+                .iter()
+                .position(|a| a == "--trace-max")
+                .and_then(|i| args.get(i + 1))
+                .and_then(|x| x.parse().ok())
+                .unwrap_or(usize::MAX);
+            write_outputs(outdir, &cases, results, !flag("--no-shrink"), flag("--trace"), trace_max);
         }
         Some("run") if args.len() >= 4 => {
             let text = std::fs::read_to_string(&args[2]).unwrap();
@@ -2001,10 +2007,10 @@ fn main() {
                 }
             }
             let results: Vec<CaseResult> = cases.iter().map(run_case_caught).collect();
-            write_outputs(&args[3], &cases, results, flag("--shrink"), flag("--trace"));
+            write_outputs(&args[3], &cases, results, flag("--shrink"), flag("--trace"), usize::MAX);
         }
         _ => {
-            eprintln!("usage: sched gen <outdir> <cases> <ops-per-client> [--no-failing-claims] [--no-cancel-claims] [--no-shutdown-op] [--no-shrink] [--trace] [--faults <per-mille>]\n       sched run <case-file> <outdir> [reps] [--trace]");
+            eprintln!("usage: sched gen <outdir> <cases> <ops-per-client> [--no-failing-claims] [--no-cancel-claims] [--no-shutdown-op] [--no-shrink] [--trace [--trace-max <cases>]] [--faults <per-mille>]\n       sched run <case-file> <outdir> [reps] [--trace]");
             std::process::exit(2);
         }
     }
